@@ -14,9 +14,11 @@ elements passed / still ahead, `cur` = position the mutators act on) by a simula
 returns and re-establishes the relation — for every list content, every cursor position, every
 element value and every allocator state.
 
-Contract hypotheses (the `@note`s of the API): `iter_add` is called with an element yielded and not
-removed (`cur = some k`) and, for the doubly linked list, at most one structural change per yielded
-element (`pos = k + 1`, resp. `pos = k` descending). -/
+Contract hypothesis (the `@note`s of the API): `iter_add` is called with an element yielded and not
+removed (`cur = some k`).  Nothing else: any number of `add`s may follow one `next` — for the ascending
+and the zip iterator of the doubly linked list this holds since the repair of defect L6 (`tail` is set
+exactly when the new node has no successor; the former `index == size` test pointed `tail` into the middle on
+the second `add` at the end); see `dlist_repeated_add` below for the witness. -/
 namespace CC.Properties.C07List
 open CC CC.Chain
 open CC.Spec
@@ -127,13 +129,13 @@ theorem dlist_iter_simulation (t : Triple) (xs : List Nat) (c : LSeq.Cursor) (it
     (∀ x, DList.iterReplace (ofList t xs) it x m =
         ((LSeq.itReplace xs c x).1, (LSeq.itReplace xs c x).2.1, ofList t (LSeq.itReplace xs c x).2.2, m) ∧
       DList.ItRel (LSeq.itReplace xs c x).2.2 c it) ∧
-    (∀ x k, c.cur = some k → c.pos = k + 1 →
+    (∀ x k, c.cur = some k →
       ∃ it', DList.iterAdd (ofList t xs) it x m =
         (if (m.allocT t).1 then (.ok, ofList t (LSeq.itAdd false xs c x).1, it', (m.allocT t).2) else (.errAlloc, ofList t xs, it, (m.allocT t).2)) ∧
       DList.ItRel (LSeq.itAdd false xs c x).1 (LSeq.itAdd false xs c x).2 it') ∧
     DList.iterIndex it = LSeq.itIndex c :=
   ⟨DList.iterNext_ofList xs c it m h, DList.iterRemove_ofList xs c it m h, fun x => DList.iterReplace_ofList xs c it x m h,
-   fun x k hc hp => DList.iterAdd_ofList xs c it x k m h hc hp, DList.iterIndex_rel xs c it h⟩
+   fun x k hc => DList.iterAdd_ofList xs c it x k m h hc, DList.iterIndex_rel xs c it h⟩
 
 /-- **Descending iterator of `cc_list.c`.** -/
 theorem dlist_diter_simulation (t : Triple) (xs : List Nat) (c : LSeq.Cursor) (it : DList.Iter) (m : Mem) (h : DList.DitRel xs c it) :
@@ -146,13 +148,13 @@ theorem dlist_diter_simulation (t : Triple) (xs : List Nat) (c : LSeq.Cursor) (i
     (∀ x, DList.iterReplace (ofList t xs) it x m =
         ((LSeq.itReplace xs c x).1, (LSeq.itReplace xs c x).2.1, ofList t (LSeq.itReplace xs c x).2.2, m) ∧
       DList.DitRel (LSeq.itReplace xs c x).2.2 c it) ∧
-    (∀ x k, c.cur = some k → c.pos = k →
+    (∀ x k, c.cur = some k →
       ∃ it', DList.diterAdd (ofList t xs) it x m =
         (if (m.allocT t).1 then (.ok, ofList t (LSeq.ditAdd xs c x).1, it', (m.allocT t).2) else (.errAlloc, ofList t xs, it, (m.allocT t).2)) ∧
       DList.DitRel (LSeq.ditAdd xs c x).1 (LSeq.ditAdd xs c x).2 it') ∧
     DList.diterIndex it = LSeq.ditIndex c :=
   ⟨DList.diterNext_ofList xs c it m h, DList.diterRemove_ofList xs c it m h, fun x => DList.diterReplace_ofList xs c it x m h,
-   fun x k hc hp => DList.diterAdd_ofList xs c it x k m h hc hp, DList.diterIndex_rel xs c it h⟩
+   fun x k hc => DList.diterAdd_ofList xs c it x k m h hc, DList.diterIndex_rel xs c it h⟩
 
 /-- **Zip iterator of `cc_list.c`** over two lists, each on its own triple (a refused second node
 releases the first one again, through the first list's triple). -/
@@ -167,7 +169,7 @@ theorem dlist_zip_simulation (t t2 : Triple) (xs ys : List Nat) (c : LSeq.Cursor
         ((LSeq.zitReplace xs ys c x1 x2).1, (LSeq.zitReplace xs ys c x1 x2).2.1,
          ofList t (LSeq.zitReplace xs ys c x1 x2).2.2.1, ofList t2 (LSeq.zitReplace xs ys c x1 x2).2.2.2, m) ∧
       DList.ZipRel (LSeq.zitReplace xs ys c x1 x2).2.2.1 (LSeq.zitReplace xs ys c x1 x2).2.2.2 c z) ∧
-    (∀ x1 x2 k, c.cur = some k → c.pos = k + 1 →
+    (∀ x1 x2 k, c.cur = some k →
       ∃ z', DList.zipAdd (ofList t xs) (ofList t2 ys) z x1 x2 m =
         (if (m.allocT t).1 then
            (if ((m.allocT t).2.allocT t2).1 then
@@ -179,7 +181,7 @@ theorem dlist_zip_simulation (t t2 : Triple) (xs ys : List Nat) (c : LSeq.Cursor
     DList.zipIndex z = LSeq.itIndex c :=
   ⟨DList.zipNext_ofList xs ys c z m h, DList.zipRemove_ofList xs ys c z m h,
    fun x1 x2 => DList.zipReplace_ofList xs ys c z x1 x2 m h,
-   fun x1 x2 k hc hp => DList.zipAdd_ofList xs ys c z x1 x2 k m h hc hp, DList.zipIndex_rel xs ys c z h⟩
+   fun x1 x2 k hc => DList.zipAdd_ofList xs ys c z x1 x2 k m h hc, DList.zipIndex_rel xs ys c z h⟩
 
 /-- **Iterator of `cc_slist.c`** (an added element becomes the current one; no further
 precondition than a current element, because `current`/`prev` are re-pointed — fix S2). -/
@@ -232,8 +234,8 @@ theorem slist_zip_simulation (t t2 : Triple) (xs ys : List Nat) (c : LSeq.Cursor
 `Proofs/ListPrograms.lean`: `IOp`/`ZOp` are the iterator calls, `DList.iterRun`/`zipRun` … run a
 program on the model, `LSeqP.run`/`zrun` on the ideal cursor.  The ideal run is guided by the refusals
 the model reports (a refused `add` did not happen) and returns, as its third component, whether
-**every call respected the documented contract** — `add` only with a current element and, for the
-doubly linked list, at most one structural change per yielded element.  The relation
+**every call respected the documented contract** — `add` only with a current element (one was yielded and
+not removed since; repeated `add`s behind one yielded element are inside the contract).  The relation
 `IterSim`/`DiterSim`/`ZipSim` at the end says: the list is in the canonical state of the ideal
 content (hence the invariant), the cursors are related, no fault was raised, the other allocator was
 not touched, and the ledger moved exactly with the length. -/
@@ -387,12 +389,23 @@ example : DList.ItRel [5, 6, 7] ⟨2, some 1⟩ ⟨2, some 1, some 2⟩ :=
   ⟨rfl, rfl, rfl, by decide, by intro k h; cases h; decide⟩
 
 /-- a program with an insertion and a removal respects the contract (third component) and runs on
-the model as on the ideal cursor; the same program with a second `add` for the same yielded element
-is not legal for the doubly linked list -/
+the model as on the ideal cursor; so does the same program with a second `add` for the same yielded element -/
 example :
     (LSeqP.run false false ([5, 6, 7], LSeq.itNew) [.next, .add 9, .next, .remove, .index] [false, false, false, false, false]).2.2 = true ∧
-    (LSeqP.run false false ([5, 6, 7], LSeq.itNew) [.next, .add 9, .add 8] [false, false, false]).2.2 = false ∧
+    (LSeqP.run false false ([5, 6, 7], LSeq.itNew) [.next, .add 9, .add 8] [false, false, false]).2.2 = true ∧
     (DList.iterRun false (ofList .libc [5, 6, 7], DList.iterInit (ofList .libc [5, 6, 7]), { liveLibc := 3 })
       [.next, .add 9, .next, .remove, .index]).2.1.abs = [5, 9, 7] := by decide
+
+/-- **regression witness of defect L6** (`add 1; next; iter_add 2; iter_add 3`): the second `iter_add` links its node
+directly behind the yielded element, in front of the node added before; the list is `[1, 3, 2]` in canonical state, in
+particular `tail` is the node of `2` (the old `index == size` test pointed it at the node of `3`); the zip iterator
+likewise on both lists -/
+theorem dlist_repeated_add :
+    (DList.iterRun false (ofList .libc [1], DList.iterInit (ofList .libc [1]), { liveLibc := 1 }) [.next, .add 2, .add 3]).2.1 =
+      ofList .libc [1, 3, 2] ∧
+    (DList.zipRun (ofList .libc [1], ofList .conf [4, 5], DList.zipInit (ofList .libc [1]) (ofList .conf [4, 5]), { liveLibc := 1, live := 2 })
+      [.next, .add 2 6, .add 3 7]).2.1 = ofList .libc [1, 3, 2] ∧
+    (DList.zipRun (ofList .libc [1], ofList .conf [4, 5], DList.zipInit (ofList .libc [1]) (ofList .conf [4, 5]), { liveLibc := 1, live := 2 })
+      [.next, .add 2 6, .add 3 7]).2.2.1 = ofList .conf [4, 7, 6, 5] := by decide
 
 end CC.Properties.C07List
